@@ -63,6 +63,20 @@ class ContainerMixin:
         self.ctx.assume(cond)
         return value
 
+    def normal_index(self, term: Any, n: Any) -> Any:
+        """Python index normalisation; the `idx + len` case is dropped when idx < 0 is impossible
+        (specs use non-negative indices by convention; in code it is checked with the solver)."""
+        term = z3.simplify(term)
+        if z3.is_int_value(term):
+            return term if term.as_long() >= 0 else z3.simplify(term + n)
+        if self.ctx.spec_depth or self.ctx.quant_depth:
+            return term
+        if not self.ctx.feasible(term < 0):
+            return term
+        if not self.ctx.feasible(term >= 0):
+            return z3.simplify(term + n)
+        return z3.If(term < 0, term + n, term)
+
     # ---- indexing -----------------------------------------------------------------------------------
     def index(self, base: V, idx: V, line: int = 0) -> V:
         if isinstance(base, (ListV, TupleV)):
@@ -72,9 +86,9 @@ class ContainerMixin:
             return base.items[i]
         if isinstance(base, SeqV):
             term = as_int_term(idx)
-            real = z3.If(term < 0, term + base.n, term)
+            real = self.normal_index(term, base.n)
             self.check_safe(z3.And(real >= 0, real < base.n), "IndexError", line)
-            return self.unpack(z3.Select(base.arr, z3.simplify(real)), base.et)
+            return self.unpack(base.sel(z3.simplify(real)), base.et)
         if isinstance(base, DictV):
             return self.dict_get(base, idx, line)
         if isinstance(base, StrV):
@@ -132,11 +146,7 @@ class ContainerMixin:
             lo = z3.simplify(norm(lower, z3.IntVal(0)))
             hi = z3.simplify(norm(upper, n))
             new_n = z3.simplify(z3.If(hi > lo, hi - lo, 0))
-            j = z3.Int(self.ctx.fresh_name("sl"))
-            arr = z3.Lambda([j], z3.Select(base.arr, j + lo))
-            if z3.is_int_value(lo) and lo.as_long() == 0:
-                arr = base.arr
-            return SeqV(arr, new_n, base.et)
+            return SeqV(base.arr, new_n, base.et, z3.simplify(lo + base.off))
         if isinstance(base, StrV):
             if base.s is not None:
                 lo = conc_int(lower) if lower is not None and not isinstance(lower, NoneV) else None
@@ -154,7 +164,7 @@ class ContainerMixin:
         if isinstance(container, SeqV):
             i = z3.Int(self.ctx.fresh_name("in"))
             packed = self.pack(item, container.et)
-            return z3.Exists([i], z3.And(i >= 0, i < container.n, z3.Select(container.arr, i) == packed))
+            return z3.Exists([i], z3.And(i >= 0, i < container.n, container.sel(i) == packed))
         if isinstance(container, SetV):
             if container.items is not None:
                 return self.or_([self.and_([cond, self.eq(x, item)]) for x, cond in container.items])
@@ -240,6 +250,9 @@ class ContainerMixin:
                 if c is True or (c is None and self.ctx.branch(same)):
                     return v
             return None
+        if target.total:
+            # precondition of the contract: every key that is looked up is present
+            return self.unpack(z3.Select(target.vals, self.pack(key, target.keys.et)), target.vt)
         present = self.contains(target.keys, key)
         if self.ctx.branch(present):
             return self.unpack(z3.Select(target.vals, self.pack(key, target.keys.et)), target.vt)
@@ -270,18 +283,18 @@ class ContainerMixin:
         sa = a if isinstance(a, SeqV) else self.seq_from_list(a.items, et)
         sb = b if isinstance(b, SeqV) else self.seq_from_list(b.items, et)
         j = z3.Int(self.ctx.fresh_name("cc"))
-        arr = z3.Lambda([j], z3.If(j < sa.n, z3.Select(sa.arr, j), z3.Select(sb.arr, j - sa.n)))
+        arr = z3.Lambda([j], z3.If(j < sa.n, sa.sel(j), sb.sel(j - sa.n)))
         return SeqV(arr, z3.simplify(sa.n + sb.n), et)
 
     def seq_append(self, target: SeqV, value: V) -> None:
-        target.arr = z3.Store(target.arr, target.n, self.pack(value, target.et))
+        target.put(target.n, self.pack(value, target.et))
         target.n = z3.simplify(target.n + 1)
 
     # ---- quantified evaluation over symbolic iterables ------------------------------------------------
     def bound_element(self, source: V, i: Any) -> tuple[V, Any]:
         """(element at ghost position i, range condition on i)."""
         if isinstance(source, SeqV):
-            return self.unpack(z3.Select(source.arr, i), source.et), z3.And(i >= 0, i < source.n)
+            return self.unpack(source.sel(i), source.et), z3.And(i >= 0, i < source.n)
         if isinstance(source, RangeV):
             start, stop = as_int_term(source.start), as_int_term(source.stop)
             value = start + i * source.step
@@ -293,7 +306,7 @@ class ContainerMixin:
             return TupleV([IntV(i), elem]), rng
         if getattr(source, "kind", "") == "dict_items":
             key, rng = self.bound_element(source.source.keys, i)
-            value = self.unpack(z3.Select(source.source.vals, z3.Select(source.source.keys.arr, i)), source.source.vt)
+            value = self.unpack(z3.Select(source.source.vals, source.source.keys.sel(i)), source.source.vt)
             return TupleV([key, value]), rng
         raise Unsupported(f"quantification over {source!r}")
 
